@@ -79,4 +79,9 @@ def run(ctx, verdict):
                         "left open on purpose: Overlaps / OverlapsPoint when a box has fewer dimensions than the layout "
                         "argument (any outcome), by position or by name when the box only covers the argument (XYM asked "
                         "of XYZM: either answer); Bounds.Polygon of a box with an empty dimension (no panic); a GeoJSON "
-                        "bbox that is not emitted, an encoding error, the bbox of a geometry without coordinates"]
+                        "bbox that is not emitted, an encoding error, the bbox of a geometry without coordinates",
+                        "left open on purpose (BoundsObs!Fits): whether a member WITHOUT coordinates promotes the layout of a box "
+                        "(any layout between the join over the coordinate-bearing leaves and the join over all of them), the "
+                        "layout / min / max of a box that never met a coordinate (only IsEmpty() = true is demanded), the exact "
+                        "content of a dimension no coordinate was fed into (any empty interval), and IsEmpty() of a box of which "
+                        "some but not all dimensions hold a coordinate"]
